@@ -201,6 +201,15 @@ func ifaceMethodKey(call *ssa.CallCommon) string {
 func (c *FnCtx) checkAssertsSeen() {
 	for _, a := range c.contract.Asserts {
 		if !c.assertsSeen[a.Label] {
+			if a.Kind == "assert" {
+				// the step the rule is about is gone from the function (removed, renamed or made
+				// unreachable): the protocol the rule describes is no longer followed - a failed
+				// obligation, not a tool problem
+				o := &Oblig{Name: c.key + "#callsite:" + a.At + ":" + a.Label + ":missing", Kind: "callsite", Goal: "false",
+					NDecl: -1, Pos: c.pos(c.fn.Pos()), Text: "the call " + a.At + " that rule " + a.Label + " is about is not reached anywhere in the function", Fn: c}
+				c.obligs = append(c.obligs, o)
+				continue
+			}
 			c.errs = append(c.errs, fmt.Sprintf("call-site rule %s: no call %s reached in the function", a.Label, a.At))
 		}
 	}
